@@ -315,10 +315,10 @@ func (g *gen) runHooked(root string, writers []wspec, sched []sev) (points []int
 					if ev.err != nil {
 						return 5
 					}
-					if sawReturn {
-						return 4
-					}
-					return 6
+					// Set returned nil: the API-level return of this writer, whether or not
+					// the "return" hook was seen (the model predicts the step at which it happens)
+					_ = sawReturn
+					return 4
 				case ev.point == "return":
 					sawReturn = true
 				default:
